@@ -33,7 +33,7 @@ def other_euid(rng, r):
 
 def gen_cases(rng, tier):
     """returns (cases, meta); meta[i] = dict(kind, uid, n, include)"""
-    per_uid = 56 if tier == "quick" else 2200
+    per_uid = 250 if tier == "quick" else 2200
     cases, meta = [], []
 
     def add(line, **m):
